@@ -31,7 +31,8 @@ ASSUMPTIONS = [
 
 @st.composite
 def case(draw):
-    return draw(econ.economy())
+    from harness import gen
+    return draw(econ.economy(horizon=gen.size((3, 5), (3, 8))))
 
 
 def has_ics(spec):
